@@ -71,3 +71,15 @@ CHECKS["C08"] = {
  "text": "At every quiescent point of generated models, edits, simulations and toggles every listed edge is checked to be held by the model and listed on both ends, the graph to be acyclic and the exported JSON to list exactly these edges; for every input the derived update chain is compared with the monitor's descendant closure (each id once, after its ancestors). On the final model inputs are perturbed one at a time (x1.37, x10, x0.001, x3600 capped, categorical/zone switch, empty->fixed count), the model rebuilt, and every changed calculated slot must have the input among its transitive ancestors.",
  "note": TB + "all entries of a per-pattern dict share one id and are one node; quick samples 24 (input, perturbation) pairs per system, thorough takes all; known finding F24 (dangling edges while a link-changing simulation is toggled on)",
 }
+CHECKS["C16"] = {
+ "level": "exploration",
+ "technique": "runtime monitoring: invariant evaluated after every operation (monitor's own forward-link walk vs reverse look-ups) + plain Python list replayed in lock-step",
+ "text": "Sequences of list mutators (every one of them, with present / absent / duplicate / out-of-range / no-op arguments), link and list assignments (incl. assigning another object's live list), edits built to fail and roll back, simulations, self_delete of referenced objects and cross-system link attempts are run on generated systems next to a second system; after every operation the monitor recomputes forward links from the objects' own attributes and compares them with modeling_obj_containers and the derived look-ups (jobs, usage_patterns, networks, systems), checks that every list is attached, that contents equal a Python list given the same operation (what Python refuses must be refused and change nothing) and that no object is in two systems.",
+ "note": TB + "list.reverse()/sort() are outside the operation list of the property and are not generated; an operation may raise when the model it would produce is itself invalid (decided by a fresh build of the resulting inputs)",
+}
+CHECKS["C18"] = {
+ "level": "exploration",
+ "technique": "runtime monitoring: fixed-point observation before/after explicit recomputation schedules; physical digests of every input before/after reads, explain, export and plots",
+ "text": "On generated systems (plain and with builders, with non-integer hourly inputs) after edit histories, every object is recomputed alone in random order, random subsets in random orders, the whole chain and system.after_init() again: the calculated observation must not move. Then every value is read, printed and explained, the system exported in both modes and plotted (Agg / plotly html): the physical digest of every input must be unchanged and a last full recomputation must reproduce the same results.",
+ "note": TB + "plots that raise on degenerate models (no server, all-zero traffic) are counted, not alarmed; recomputation requests are per object / subset / whole system as in the statement (single update rules are an internal API)",
+}
